@@ -539,7 +539,7 @@ def obliged(case, ev, served, lines=()):
             continue
         if ev['type'] == 'RI' and form == 'skip' and ri_slack() >= 1 and \
                 any(e[0] < ev['cols'][3] and ev['cols'][4] == e[1] - 1 for e in t['exons']):
-            continue      # finding C16-RI-retained-1nt (converse side); not exempt once the source is repaired
+            continue      # only while the source still carries the repaired off-by-one (ri_end_slack >= 1)
         if ev['type'] == 'SE' and form == 'skip' and g['strand'] == -1 and t['exons'][-1][1] <= ev['cols'][4] + 1:
             continue
         if ev['type'] in ('A5SS', 'A3SS') and form == 'inc' and not ((ev['type'] == 'A5SS') == (g['strand'] == 1)):
@@ -774,8 +774,7 @@ def run(ctx):
             for name, obj in corpus:
                 if obj.get('finding') and obj['case']['events'][0]['cols'] == v['replay_obj']['case']['events'][0]['cols']:
                     fid = obj['finding']
-            if fid:
-                v['finding'] = fid
+            # fixed findings are regression cases: a recurrence is a VIOLATION
             violations.append(v)
         stats['harmless'] += cstats['harmless']; stats['cli_diff'] += cstats['cli_diff']
     results = evaluate(ctx, cases)
@@ -809,26 +808,9 @@ def run(ctx):
                 trusted_base=['GVF text rendering of model records (harness/props/c16.py:render)',
                               'python ground truth harness/lib/gen_reference.py (tx_seq, g2tx, gene2g)'])
 
-FINDING_RI = 'C16-RI-retained-1nt'
-
-def ri_1nt_signature(case, ev):
-    """RIRecord tests `exon_start < upstreamEE < downstreamES < exon_end - 1`: a retaining isoform whose exon ends exactly
-    one base after downstreamES is not recognised.  Signature: RI row, a retaining exon exists, and every retaining exon
-    of the gene ends at downstreamES + 1."""
-    if ev['type'] != 'RI':
-        return False
-    g = case['world']['genes'][ev['gene']]
-    ue, ds = ev['cols'][3], ev['cols'][4]
-    ret = [e for t in g['transcripts'] for e in t['exons'] if e[0] < ue and ds < e[1]]
-    return bool(ret) and all(e[1] == ds + 1 for e in ret)
-
 def classify(violations):
-    for v in violations:
-        o = v.get('replay_obj', {})
-        if o.get('kind') == 'case' and 'already has it' in v.get('what', '') or 'already annotated' in v.get('what', ''):
-            evs = o['case']['events']
-            if evs and all(ri_1nt_signature(o['case'], e) for e in evs if e['type'] == 'RI') and any(e['type'] == 'RI' for e in evs):
-                v['finding'] = FINDING_RI
+    """no open finding of C16 has a signature: every violation is reported (C16-RI-retained-1nt was repaired in /repo
+    c65fc44; its replay corpus/C16/finding_RI-retained-1nt.json runs first on every check as a regression case)"""
     return violations
 
 def search_failing_input(ctx, broken):
